@@ -218,11 +218,14 @@ def run(ctx, res):
         case = {"kind": kind, "files": [(n, len(c)) for n, c in files]}
         st.see(case, nontrivial=len(files) > 0)
         variants = {}
-        layouts = ["plain", "again", "verbose", "subdir", "dotted", "absolute", "old_target_short", "old_target_long", "old_archive", "accented_dir", "blank_dir"]
+        layouts = ["plain", "again", "verbose", "subdir", "dotted", "absolute", "old_target_short", "old_target_long", "old_archive", "accented_dir", "blank_dir", "case_growing_dir"]
         for lay in layouts:
             d = ctx.fresh_dir()
             arc = "out." + kind
-            sub = {"subdir": "src", "dotted": "my.dir/v1.2", "accented_dir": "donn\u00e9es/\u00e9t\u00e9", "blank_dir": "my files/v 2,a"}.get(lay, "")
+            sub = {"subdir": "src", "dotted": "my.dir/v1.2", "accented_dir": "donn\u00e9es/\u00e9t\u00e9", "blank_dir": "my files/v 2,a",
+                   # directory names whose upper / lower case has another length (ß -> SS, the ligature fi -> FI, İ -> i + combining dot):
+                   # an index computed on the converted path is not an index into the path (seed C20d)
+                   "case_growing_dir": "Stra\u00dfe.x/\ufb01les \u0130"}.get(lay, "")
             make_sources(d, files, sub)
             if lay == "absolute":
                 srcs = [os.path.join(d, n) for n, _ in files]
